@@ -14,7 +14,10 @@
  *   INC <parent> <file> <ns|-> <px|-> <sx|->
  *   ADD <TYPE> <frag> <parent|-> <name> <args...> [S <i> <code> <ind>]...
  *   ALIAS <frag> <parent|-> <name> <target>
- *   HIDE <code>     REF <code>
+ *   HIDE <code>     UNHIDE <code>     REF <code>
+ *   MFLUSH                               gd_metaflush only (fragments become clean)
+ *   RENAME <code> <new name> <flags hex>   MOVE <code> <frag> <flags hex>   DELETE <code> <flags hex>
+ *   PUTS <code> <string>   PUTC <code> <I|U|D> <hex64>   ALTERSPEC <line> <recode>   UNINCLUDE <frag>
  *   FLUSH                                metaflush, dump, close, reopen x2
  *   END
  * doubles are 16 hex digit IEEE bit patterns, integers are decimal.
@@ -92,7 +95,9 @@ static void snap_scalars(const gd_entry_t *e, int n)
   }
 }
 
-static void snap_entry(DIRFILE *D, gd_entry_t *IE)
+static int (*stored_ind)[GD_MAX_POLYORD + 1];
+
+static void snap_entry(DIRFILE *D, gd_entry_t *IE, unsigned u)
 {
   gd_entry_t e;
   int i, n;
@@ -109,7 +114,7 @@ static void snap_entry(DIRFILE *D, gd_entry_t *IE)
     printf(" ERR gd_entry=%d\n", gd_error(D));
     return;
   }
-  { int k; for (k = 0; k <= GD_MAX_POLYORD; k++) e.scalar_ind[k] = IE->scalar_ind[k]; } /* as stored */
+  { int k; for (k = 0; k <= GD_MAX_POLYORD; k++) e.scalar_ind[k] = stored_ind[u][k]; } /* as stored before gd_entry resolved them */
   printf(" type=%02x frag=%d hidden=%d meta=%d", e.field_type, e.fragment_index,
       !!(IE->flags & GD_EN_HIDDEN), IE->e->n_meta == -1);
   switch (e.field_type) {
@@ -293,8 +298,14 @@ static void snapshot(DIRFILE *D, const char *tag)
     gd_error(D);
   }
   printf("R "); puthex(gd_reference(D, NULL)); printf("\n");
+  stored_ind = malloc(sizeof(*stored_ind) * (D->n_entries + 1));
+  for (u = 0; u < D->n_entries; u++) {
+    int k;
+    for (k = 0; k <= GD_MAX_POLYORD; k++) stored_ind[u][k] = D->entry[u]->scalar_ind[k];
+  }
   for (u = 0; u < D->n_entries; u++)
-    snap_entry(D, D->entry[u]);
+    snap_entry(D, D->entry[u], u);
+  free(stored_ind);
   printf("ENDSNAP\n");
 }
 
@@ -544,6 +555,27 @@ int main(int argc, char **argv)
     } else if (!strcmp(tok[0], "REF")) {
       const char *r = gd_reference(D, unhex(tok[1]));
       op(r ? 0 : -1, D);
+    } else if (!strcmp(tok[0], "MFLUSH")) {
+      op(gd_metaflush(D), D);
+    } else if (!strcmp(tok[0], "RENAME")) {
+      op(gd_rename(D, unhex(tok[1]), unhex(tok[2]), strtoul(tok[3], NULL, 16)), D);
+    } else if (!strcmp(tok[0], "MOVE")) {
+      op(gd_move(D, unhex(tok[1]), atoi(tok[2]), strtoul(tok[3], NULL, 16)), D);
+    } else if (!strcmp(tok[0], "DELETE")) {
+      op(gd_delete(D, unhex(tok[1]), strtoul(tok[2], NULL, 16)), D);
+    } else if (!strcmp(tok[0], "UNHIDE")) {
+      op(gd_unhide(D, unhex(tok[1])), D);
+    } else if (!strcmp(tok[0], "PUTS")) {
+      op(gd_put_string(D, unhex(tok[1]), unhex(tok[2])), D);
+    } else if (!strcmp(tok[0], "PUTC")) {
+      /* PUTC <code> <class: I U D> <hex64> */
+      uint64_t v = strtoull(tok[3], NULL, 16);
+      gd_type_t t = tok[2][0] == 'I' ? GD_INT64 : tok[2][0] == 'U' ? GD_UINT64 : GD_FLOAT64;
+      op(gd_put_constant(D, unhex(tok[1]), t, &v), D);
+    } else if (!strcmp(tok[0], "ALTERSPEC")) {
+      op(gd_alter_spec(D, unhex(tok[1]), atoi(tok[2])), D);
+    } else if (!strcmp(tok[0], "UNINCLUDE")) {
+      op(gd_uninclude(D, atoi(tok[1]), 0), D);
     } else if (!strcmp(tok[0], "FLUSH")) {
       int rc = gd_metaflush(D);
       int std, perm;
